@@ -645,6 +645,7 @@ impl SimMpd {
             }
             "password" => {
                 *kind = UnitKind::Password;
+                *delay = (*delay).max(self.plan.handshake_delay_ms);
                 let given = arg_str(0).unwrap_or_default();
                 match self.plan.password.clone() {
                     None => Err(ack(3, index, "password", "incorrect password")),
